@@ -145,6 +145,20 @@ fn pool_sizes(ctx: &Ctx) {
         }
         out
     };
+    // the seeded initialisers are pure functions of their arguments, whatever pool they are called from (large shapes too)
+    let init_ref: Vec<Vec<u64>> = [(512usize, 64usize), (6, 10000), (40, 100)].iter().map(|(n, d)| init_with_seed::<f64>(*n, *d, 7).iter().flatten().map(|x| x.to_bits()).collect()).collect();
+    for k in sizes.iter().cloned() {
+        let pool = rayon::ThreadPoolBuilder::new().num_threads(k).build().expect("rayon pool");
+        for (i, (n, d)) in [(512usize, 64usize), (6, 10000), (40, 100)].iter().enumerate() {
+            let got: Vec<u64> = pool.install(|| init_with_seed::<f64>(*n, *d, 7).iter().flatten().map(|x| x.to_bits()).collect());
+            ctx.transitions(1);
+            if got != init_ref[i] {
+                ctx.violation(Violation::new("C07:init-impure(pool)", format!("init_with_seed({n},{d},7) called inside a pool of {k} thread(s) differs from the same call outside"), json!({"part": "pool", "sampler": "init", "threads": k})));
+            } else {
+                ctx.outcome("init-pool-identical", 1);
+            }
+        }
+    }
     for k in sizes {
         let pool = rayon::ThreadPoolBuilder::new().num_threads(k).build().expect("rayon pool");
         for (name, reference) in [("MH", &mh_ref), ("Gibbs", &gibbs_ref), ("NUTS<f64,NdArray<f64>>", &nuts_ref)] {
@@ -196,6 +210,13 @@ fn progress_vs_plain_inner(ctx: &Ctx) {
         let a = catch(|| tensor_bits(&hmc_build::<f32, BF32>(3, Some(seed), false).run(5, 2)));
         let b = catch(|| hmc_build::<f32, BF32>(3, Some(seed), false).run_progress(5, 2).map(|x| tensor_bits(&x.0)).map_err(|e| e.to_string())).and_then(|r| r);
         cmp(ctx, "HMC<f32,NdArray<f32>>", a, b, &case);
+        for (nm, a, b) in [
+            ("HMC<f32,NdArray<f64>>", catch(|| tensor_bits(&hmc_build::<f32, BF64>(3, Some(seed), false).run(5, 2))), catch(|| hmc_build::<f32, BF64>(3, Some(seed), false).run_progress(5, 2).map(|x| tensor_bits(&x.0)).map_err(|e| e.to_string())).and_then(|r| r)),
+            ("HMC<f64,NdArray<f64>>", catch(|| tensor_bits(&hmc_build::<f64, BF64>(3, Some(seed), false).run(5, 2))), catch(|| hmc_build::<f64, BF64>(3, Some(seed), false).run_progress(5, 2).map(|x| tensor_bits(&x.0)).map_err(|e| e.to_string())).and_then(|r| r)),
+            ("HMC<f64,NdArray<f32>>", catch(|| tensor_bits(&hmc_build::<f64, BF32>(3, Some(seed), false).run(5, 2))), catch(|| hmc_build::<f64, BF32>(3, Some(seed), false).run_progress(5, 2).map(|x| tensor_bits(&x.0)).map_err(|e| e.to_string())).and_then(|r| r)),
+        ] {
+            cmp(ctx, nm, a, b, &case);
+        }
         // NUTS: run_progress(n, d) == run(n+1, d) without its first row
         let a = catch(|| {
             let t = nuts_build::<f32, BF32>(3, Some(seed), false).run(6, 2);
